@@ -244,6 +244,19 @@ fn run_seq(ops: &[SOp]) -> (Vec<Fail>, u64, u64, u64) {
                             }
                         }
                     }
+                    // the syntactic term of a binder class, asked for under the user's spellings of its parameter (also $0 and
+                    // $1, the names shapes use for bound slots): the binder must not capture it
+                    for sp in [a, b, Slot::numeric(0), Slot::numeric(1)] {
+                        let inv = AppliedId::new(lam.id, lam.m.iter().map(|(k, _)| (k, sp)).collect());
+                        if inv.m.len() != 1 {
+                            continue;
+                        }
+                        let syn = eg.get_syn_expr(&inv);
+                        match lookup_rec_expr(&syn, &eg) {
+                            Some(j) if eg.eq(&j, &inv) => {}
+                            other => problems.push(format!("get_syn_expr({inv:?}) returned {syn}, which looks up as {other:?}")),
+                        }
+                    }
                     (out, problems)
                 });
                 match r {
@@ -316,7 +329,7 @@ impl Prop for SlotsProp {
         vec!["fresh_after_other_slots", "name_of_fresh_form_parsed", "egraph_internal_slots_checked", "match_with_pattern_slot_spelled_like_an_internal_slot"]
     }
     fn rule(&self) -> String {
-        format!("Every sequence (length <=4 quick, <=5 thorough) over the operations fresh, numeric(n) for n in {{0,1,2,2^30-1}}, named(s) for s in {:?}, parse(print(last slot)) and 'insert (f last prev) into a fresh e-graph' and 'match (b (var S) ?y) / ?o == (b ?l ?r), ?l == (var S) against (b (var last) (var prev)) with S spelled like each of the class's own slots' is executed in a fresh thread against a reference model (set of slots seen, map name->slot): fresh must be new and print as $f<k>; a name always denotes the same slot; two different names never denote the same slot; print->named and print->parse->print round-trip; class parameter slots invented by the e-graph are new; every e-node that enodes_applied returns for a class (also a binder class) invoked with the user's slots has exactly the invocation's slots and looks up to it. Non-trivial = sequence that constructs at least two slots.", NAMES)
+        format!("Every sequence (length <=4 quick, <=5 thorough) over the operations fresh, numeric(n) for n in {{0,1,2,2^30-1}}, named(s) for s in {:?}, parse(print(last slot)) and 'insert (f last prev) into a fresh e-graph' and 'match (b (var S) ?y) / ?o == (b ?l ?r), ?l == (var S) against (b (var last) (var prev)) with S spelled like each of the class's own slots' is executed in a fresh thread against a reference model (set of slots seen, map name->slot): fresh must be new and print as $f<k>; a name always denotes the same slot; two different names never denote the same slot; print->named and print->parse->print round-trip; class parameter slots invented by the e-graph are new; every e-node that enodes_applied returns for a class (also a binder class) invoked with the user's slots has exactly the invocation's slots and looks up to it; get_syn_expr of a binder class invoked with the user's slots and with $0/$1 looks up to that invocation. Non-trivial = sequence that constructs at least two slots.", NAMES)
     }
     fn assumptions(&self) -> Vec<String> {
         vec!["numerals at and beyond the encoding boundary (2^30) are driven since the fifth seed round (D18)".into(), "the empty name cannot be written in the term syntax; it is only exercised through Slot::named".into()]
